@@ -158,6 +158,31 @@ func HarnessBatches(k int) {
 	vh.Reach("end")
 }
 
+// HarnessRealBatches (C17): HarnessRoundTrip with the REAL batch loop of importHeaders crossing
+// batch boundaries: the verification overlay turns the constant sqliteBatchSize (500) into a
+// variable, set to b here, so that k rows span several batches.
+func HarnessRealBatches(k int, b int) {
+	if !setBatchSize(b) {
+		vh.Assume(false) // the declaration was not found in the current source: nothing is claimed
+		return
+	}
+	defer setBatchSize(500)
+	pre := c17Store(k)
+	recs := export(pre)
+	db2 := vhdb.NewDB()
+	a := &sqLiteAdapter{db: db2}
+	n, err := a.importHeaders(vhcsv.File(recs), vh.Logger())
+	vh.Assert("C17/import-succeeds", err == nil)
+	got, ok := hstore.Load(db2)
+	vh.Assert("C17/imported-rows-wellformed", ok)
+	if !ok {
+		return
+	}
+	vh.Assert("C17/import-count-reported", n == len(got))
+	compareImported(pre, got)
+	vh.Reach("end")
+}
+
 // HarnessSecondStart (C17): a start on a database that already holds headers never imports
 // (nothing is overwritten) - and therefore accepts whatever a refused import left behind.
 func HarnessSecondStart(k int) {
